@@ -711,6 +711,99 @@ pub fn resume(a: &HashMap<String, String>) -> i32 {
 }
 
 // ---------------------------------------------------------------------------------------------
+// C10 / C12 across connections: Receive Maximum and Maximum Packet Size are properties of ONE connection. A Context that is
+// set up and connected again must obey what the NEW CONNACK announces (65535 / no limit when the property is absent), whether
+// or not the session is resumed and whether or not exchanges were outstanding when the first connection was lost.
+
+pub fn reconn(a: &HashMap<String, String>) -> i32 {
+    let mut sink = Sink::new(a);
+    let seed = seed_of(a);
+    let ms: [(Option<u32>, Option<u32>); 6] = [(Some(40), None), (Some(40), Some(20)), (Some(20), Some(40)), (None, Some(20)), (Some(40), Some(40)), (None, None)];
+    let rs: [(Option<u16>, Option<u16>); 6] = [(Some(2), None), (None, Some(1)), (Some(1), Some(3)), (Some(3), Some(1)), (Some(2), Some(2)), (None, None)];
+    for (m1, m2) in ms {
+        for (r1, r2) in rs {
+            for (sei, secs) in [(0u32, 0u64), (u32::MAX, 0)] {
+                for pre in 0..4usize {
+                    let run = match sink.mine() {
+                        Some(x) => x,
+                        None => continue,
+                    };
+                    let p1 = Params { fam: "reconn".into(), r: r1, m: m1, sei_connect: Some(sei), ..Default::default() };
+                    let p2 = Params { fam: "reconn".into(), r: r2, m: m2, sei_connect: Some(sei), ..Default::default() };
+                    let mut steps = vec![p1.to_json()];
+                    // `pre` exchanges outstanding when the connection is lost (the second one between its QoS 2 phases)
+                    if pre >= 1 {
+                        steps.push(json!({"a": "call", "op": 1, "h": 0, "spec": pub_spec(1, 1, 2)}));
+                        steps.push(settle_wake());
+                    }
+                    if pre >= 2 {
+                        steps.push(json!({"a": "call", "op": 2, "h": 0, "spec": pub_spec(2, 2, 2)}));
+                        steps.push(settle_wake());
+                        steps.push(json!({"a": "pkt", "pk": {"t": "PUBREC", "id": {"op": 2}, "rc": 0}}));
+                        if pre == 3 {
+                            // the PUBREC is handled but the caller is not polled: the exchange holds its slot while neither its
+                            // PUBLISH nor its PUBREL is queued for retransmission
+                            steps.push(poll_ctx());
+                        } else {
+                            steps.push(settle_wake());
+                        }
+                    }
+                    steps.push(json!({"a": "eof"}));
+                    steps.push(settle_wake());
+                    steps.push(json!({"a": "markdisc", "secs": secs}));
+                    let mut rc = p2.to_json();
+                    rc["a"] = json!("reconnect");
+                    steps.push(rc);
+                    steps.push(poll_ctx());
+                    steps.push(settle_wake());
+                    if run % 2 == 0 {
+                        // new publishes before anything re-sent is acknowledged: the exchanges carried over keep their slots
+                        for k in 3..6 {
+                            steps.push(json!({"a": "call", "op": k, "h": 0, "spec": pub_spec(k, if k == 4 { 2 } else { 1 }, 1)}));
+                            steps.push(settle_wake());
+                        }
+                    }
+                    steps.push(json!({"a": "autoack"}));
+                    steps.push(settle_wake());
+                    steps.push(json!({"a": "autoack"}));
+                    steps.push(settle_wake());
+                    // size probes around both limits (a QoS 1 PUBLISH built by pub_spec is 10 + n bytes long, a QoS 0 one 8 + n),
+                    // each acknowledged at once so that the quota does not interfere
+                    let mut k = 10;
+                    for (qos, n) in [(1u8, 10usize), (1, 11), (1, 30), (1, 31), (0, 12), (0, 13), (0, 32), (0, 33), (2, 10), (2, 31)] {
+                        steps.push(json!({"a": "call", "op": k, "h": 0, "spec": pub_spec(k, qos, n)}));
+                        steps.push(settle_wake());
+                        steps.push(json!({"a": "autoack"}));
+                        steps.push(settle_wake());
+                        steps.push(json!({"a": "autoack"}));
+                        steps.push(settle_wake());
+                        k += 1;
+                    }
+                    // quota probes: five small QoS 1 publishes without acknowledgements in between, then everything acknowledged
+                    // and one more
+                    for _ in 0..5 {
+                        steps.push(json!({"a": "call", "op": k, "h": 0, "spec": pub_spec(k, 1, 1)}));
+                        steps.push(settle_wake());
+                        k += 1;
+                    }
+                    steps.push(json!({"a": "autoack"}));
+                    steps.push(settle_wake());
+                    steps.push(json!({"a": "call", "op": k, "h": 0, "spec": pub_spec(k, 2, 1)}));
+                    steps.push(settle_wake());
+                    steps.push(json!({"a": "autoack"}));
+                    steps.push(settle_wake());
+                    steps.push(json!({"a": "autoack"}));
+                    steps.push(settle());
+                    sink.run_script(run, steps, seed);
+                }
+            }
+        }
+    }
+    sink.finish();
+    0
+}
+
+// ---------------------------------------------------------------------------------------------
 // C03: framing under every chunking
 
 struct StreamPk {
@@ -1198,7 +1291,12 @@ struct FuzzOut {
 
 fn fuzz_case(phase: &str, bytes: &[u8], fault: &str) -> FuzzOut {
     let mut rng = StdRng::seed_from_u64(1);
-    let p = Params { fam: "fuzz".into(), r: Some(10), ..Default::default() };
+    // phases ending in "R0": the CONNACK announced no Receive Maximum (quota at its default 65535, the top of its type)
+    let (phase, r) = match phase.strip_suffix("R0") {
+        Some(ph) => (ph, None),
+        None => (phase, Some(10)),
+    };
+    let p = Params { fam: "fuzz".into(), r, ..Default::default() };
     let mut s;
     match phase {
         "connect" | "authorize" => {
@@ -1285,7 +1383,7 @@ pub fn fuzz(a: &HashMap<String, String>) -> i32 {
     let mut sink = Sink::new(a);
     let seed = seed_of(a);
     let mut rng = StdRng::seed_from_u64(seed ^ 0xf00d);
-    let phases = ["connect", "authorize", "idle", "ops", "midq2"];
+    let phases = ["connect", "authorize", "idle", "ops", "midq2", "idleR0", "opsR0"];
     let mode = if cfg!(debug_assertions) { "dev" } else { "release" };
     let mut emit = |sink: &mut Sink, phase: &str, name: &str, bytes: &[u8], fault: &str| {
         let run = match sink.mine() {
